@@ -143,7 +143,7 @@ func c16Apply(base, layer any) (any, error) {
 // specIntersect: the documented intersection of two null-free documents:
 // maps keep their common keys; equal scalars stay; differing values (or
 // kinds) at a common path become $required; a list keeps the entries of a
-// that also occur in b, or is [$required] when nothing is shared.
+// that also occur in b (as a multiset), or is [$required] when nothing is shared.
 func specIntersect(a, b any) any {
 	switch av := a.(type) {
 	case map[string]any:
@@ -163,13 +163,20 @@ func specIntersect(a, b any) any {
 		if !ok {
 			return "$required"
 		}
+		// multiset intersection in the order of a; an empty result is marked
+		// $required unless both lists are empty
 		r := []any{}
+		used := make([]bool, len(bl))
 		for _, x := range av {
-			if vListIn(bl, x) {
-				r = append(r, vCopy(x))
+			for j, y := range bl {
+				if !used[j] && vEq(x, y) {
+					used[j] = true
+					r = append(r, vCopy(x))
+					break
+				}
 			}
 		}
-		if len(r) == 0 {
+		if len(r) == 0 && (len(av) > 0 || len(bl) > 0) {
 			r = append(r, "$required")
 		}
 		return r
@@ -202,22 +209,8 @@ func c16ListRegion(inputs []any) string {
 		}
 	}
 	if len(lists) == len(inputs) && len(lists) > 0 {
-		allEmpty := true
-		for _, l := range lists {
-			if len(l) > 0 {
-				allEmpty = false
-			}
-			for i := range l {
-				for j := i + 1; j < len(l); j++ {
-					if vEq(l[i], l[j]) {
-						return "C16-R1"
-					}
-				}
-			}
-		}
-		if allEmpty {
-			return "C16-R1"
-		}
+		// (C16-R1, repeated entries and all-empty lists, was repaired in
+		// /repo; those inputs are asserted like any other)
 		for _, l := range lists[1:] {
 			// shared entries in the order of lists[0] vs in the order of l
 			x := []any{}
